@@ -64,6 +64,26 @@ def corridor_cases(tier, rng, kind):
             e = rng.choice(lattice(rs2[-1]))
             if s[1] <= e[1]:
                 yield {"kind": kind, "rects": rs2, "s": list(s), "e": list(e), "den": 2}
+    # wide / narrow slot / wide corridors with layout-like dimensions (the rectangle around a helper node of a long edge
+    # is a slot of about ten units between two rectangles as wide as the drawing): the path wraps the slot's corners and
+    # the fitted curve has to squeeze through it
+    for _ in range(2500 if tier == "quick" else 30000):
+        W = rng.choice([200, 400, 600])
+        k = rng.choice([3, 3, 5])
+        rs, top = [], 0
+        for i in range(k):
+            h = rng.choice([20, 40, 80, 160])
+            if i % 2 == 0:
+                L, R = rng.randint(0, W // 10), W - rng.randint(0, W // 10)
+            else:
+                # strictly inside every wide rectangle, so that the doors have positive length
+                L = rng.randint(W // 10 + 1, W - W // 10 - 18)
+                R = L + rng.randint(6, 16)
+            rs.append([L, top, R, top + h])
+            top += h
+        s = (rng.randint(rs[0][0], rs[0][2]), rng.choice([rs[0][1], rng.randint(rs[0][1], rs[0][3])]))
+        e = (rng.randint(rs[-1][0], rs[-1][2]), rng.choice([rs[-1][3], rng.randint(rs[-1][1], rs[-1][3])]))
+        yield {"kind": kind, "rects": rs, "s": list(s), "e": list(e), "den": 1}
     # random larger corridors (k up to 12), integer corners up to 40
     for _ in range(1500 if tier == "quick" else 25000):
         k = rng.randint(2, 12)
@@ -85,7 +105,23 @@ def corridor_cases(tier, rng, kind):
         yield {"kind": kind, "rects": rs, "s": list(s), "e": list(e), "den": 1}
 
 
+def well_formed(c):
+    rs = c.get("rects")
+    if rs is None:
+        return True
+    for i, r in enumerate(rs):
+        if not (r[0] < r[2] and r[1] < r[3]):
+            return False
+        if i + 1 < len(rs) and not (rs[i + 1][1] == r[3] and max(r[0], rs[i + 1][0]) < min(r[2], rs[i + 1][2])):
+            return False
+    s, e = c["s"], c["e"]
+    return rs[0][0] <= s[0] <= rs[0][2] and rs[0][1] <= s[1] <= rs[0][3] and rs[-1][0] <= e[0] <= rs[-1][2] and rs[-1][1] <= e[1] <= rs[-1][3]
+
+
 def run_geom(work, driver, prop, cases, tag="geom", budget_ms=3000, mem_mb=300):
+    bad = [c for c in cases if not well_formed(c)]
+    if bad:
+        raise HarnessError("generator produced a malformed corridor: %s" % json.dumps(bad[0]))
     for i, c in enumerate(cases):
         c["case"] = i + 1
     nsh = min(core.NCPU, max(1, len(cases) // 300))
